@@ -539,7 +539,8 @@ def run(ctx):
             hist[r['out'].split()[0]] += 1
         sigs.add((c['kind'], tuple((op['mode'], r['out'].split()[0], min(r['nev'], 3), bool(op.get('gap'))) for op, r in zip(c['ops'], a['recs']))))
         lines.append(model_line(c, a))
-        eof_idle = any(ev[0] in ('E', 'L') and ev[2] for ev in a['log'])       # an EOF reached the protocol with no call outstanding
+        first_eof = next((ev for ev in a['log'] if ev[0] in ('E', 'L')), None)
+        eof_idle = bool(first_eof and first_eof[2])       # the stream's EOF reached the protocol with no call outstanding
         if eof_idle and (d is not None or any(r['out'].startswith('EXC') for r in a['recs'])):
             common.report(ctx, KNOWN_EOF, 'an EOF was delivered while no awaited call was outstanding; afterwards the awaited history differs from the twin '
                           '(%s)' % (d[1] if d else [r['out'] for r in a['recs'] if r['out'].startswith('EXC')][0]), dict(case=c))
